@@ -108,8 +108,8 @@ func genC18(t *rapid.T) *C18Case {
 			c.UseServer = true // net/http's own ReadFrom (sendfile) path exists only on a real connection
 		}
 	}
-	if c.Code == 0 && len(c.Writes) == 0 {
-		// a handler that writes nothing at all is not addressed by the statement
+	if c.Code == 0 && len(c.Writes) == 0 && rapid.Bool().Draw(t, "explicit200") {
+		// otherwise: a handler that returns without having produced anything (net/http answers 200 for it)
 		c.Code = 200
 	}
 	return c
@@ -489,6 +489,9 @@ func checkC18(c *C18Case) Result {
 	}
 	if c.Code == 0 {
 		out.Labels = append(out.Labels, "implicit-write-header")
+	}
+	if c.Code == 0 && len(c.Writes) == 0 {
+		out.Labels = append(out.Labels, "silent-handler")
 	}
 	out.NonTrivial = nearReq || nearResp || (flushBetween && nw >= 2)
 	return out
